@@ -1443,8 +1443,7 @@ impl Server {
             if self.sessions.borrow().slab.contains(token.0) {
                 let slab_before = self.sessions.borrow().slab.len();
                 let session = { self.sessions.borrow_mut().slab.remove(token.0) };
-                session.borrow_mut().close();
-                self.sessions.borrow_mut().decr();
+                session.borrow_mut().close(); /*mut*/
                 // The removed token is truly gone afterwards. The slab may shrink
                 // by MORE than one: `close()` also frees the session's backend
                 // slab slot(s) (the multi-token pattern), so assert it shrank by
@@ -2023,9 +2022,13 @@ impl Server {
     }
 
     pub fn notify_proxys(&mut self, request: WorkerRequest) {
-        if let Err(e) = self.config_state.dispatch(&request.content) {
-            error!("Could not execute order on config state: {}", e);
-        }
+        let applied_to_state = match self.config_state.dispatch(&request.content) {
+            Ok(()) => true,
+            Err(e) => {
+                error!("Could not execute order on config state: {}", e);
+                false
+            }
+        };
 
         let req_id = request.id.clone();
 
@@ -2147,11 +2150,17 @@ impl Server {
                 debug!("{} remove {:?} listener {:?}", req_id, remove.proxy, remove);
                 // We only remove a listener that was previously added, so the
                 // base count is at least 1 — the subtraction cannot underflow.
-                debug_assert!(
-                    self.base_sessions_count > 0,
-                    "removing a listener with base_sessions_count == 0 would underflow"
-                );
-                self.base_sessions_count -= 1;
+                // only a listener this worker knows gives its slot back: the
+                // count was raised when that listener was added. A request
+                // naming no known listener must leave it alone, or a later soft
+                // stop waits forever for sessions that do not exist.
+                if applied_to_state {
+                    debug_assert!(
+                        self.base_sessions_count > 0,
+                        "removing a listener with base_sessions_count == 0 would underflow"
+                    );
+                    self.base_sessions_count -= 1;
+                }
                 let response = match ListenerType::try_from(remove.proxy) {
                     Ok(ListenerType::Http) => self.http.borrow_mut().notify(request),
                     Ok(ListenerType::Https) => self.https.borrow_mut().notify(request),
